@@ -29,18 +29,29 @@ func (a *config) MergeSpoc(d deviceconf.Config) deviceconf.Config {
 				errlog.Abort("Must not redefine chain %q of table %q from rawdata",
 					cName, tName)
 			}
+			// Preserve order of rules from raw file.
+			// pre: position behind already prepended rules.
+			// app: position behind already appended rules.
+			pre := 0
+			app := -1
 			for _, ru := range bChain.rules {
-				i := 0
+				i := pre
 				if ru.append {
-					// Append before last non DROP line.
-					i = len(aChain.rules)
-					for i > 0 {
-						if aChain.rules[i-1].pairs["-j"] == "DROP" {
-							i--
-						} else {
-							break
+					if app == -1 {
+						// Append before last non DROP line.
+						app = len(aChain.rules)
+						for app > pre {
+							if aChain.rules[app-1].pairs["-j"] == "DROP" {
+								app--
+							} else {
+								break
+							}
 						}
 					}
+					i = app
+					app++
+				} else {
+					pre++
 				}
 				aChain.rules = slices.Insert(aChain.rules, i, ru)
 			}
